@@ -55,7 +55,7 @@ CATALOGUE = [
     ("C03", "c03-benign-ge1", MB, 'role="memory_write_gate",\n            debug_info=self._make_debug_info(op, "write_gate"),\n            operation=">",\n            left_operand="signal-W",\n            right_operand=0,', 'role="memory_write_gate",\n            debug_info=self._make_debug_info(op, "write_gate"),\n            left_operand="signal-W",\n            operation=">",\n            right_operand=0,', 1, "silent", ""),
     # ---- C04 ----
     ("C04", "c04-no-always", MB, "if is_always_write and self._can_use_arithmetic_feedback(op, module):", "if self._can_use_arithmetic_feedback(op, module):", 1, "fire", "C04-R1"),
-    ("C04", "c04-no-hold-flag", MB, "        module.write_gate_unused = True\n        module.hold_gate_unused = True\n\n        if op.memory_id in signal_graph._sources:", "        module.write_gate_unused = True\n\n        if op.memory_id in signal_graph._sources:", 1, "fire", "hold gate is flagged unused"),
+    ("C04", "c04-no-hold-flag", MB, "        module.write_gate_unused = True\n        module.hold_gate_unused = True\n", "        module.write_gate_unused = True\n", 1, "fire", "hold gate is flagged unused"),
     ("C04", "c04-left-only", MB, "            if isinstance(ir_node.right, SignalRef) and self._operation_depends_on_memory(\n                ir_node.right.source_id, memory_id, visited\n            ):\n                return True\n", "", 1, "fire", "_operation_depends_on_memory"),
     # ---- C05 ----
     ("C05", "c05-prio-swap", TR, "return (set_expr, reset_expr, True)  # set_priority=True (SR latch)", "return (set_expr, reset_expr, False)  # set_priority=True (SR latch)", 1, "fire", "priority constant"),
@@ -63,7 +63,7 @@ CATALOGUE = [
     ("C05", "c05-fb-red", MB, 'wire_color="green",  # Green for feedback', 'wire_color="red",  # Green for feedback', 1, "fire", "C05-R4"),
     ("C05", "c05-benign-dict-order", MB, '            "<": ">=",\n            "<=": ">",', '            "<=": ">",\n            "<": ">=",', 1, "silent", ""),
     # ---- C06 ----
-    ("C06", "c06-ge0", EE, 'entity.set_circuit_condition(signal_dict, ">", 0)', 'entity.set_circuit_condition(signal_dict, ">=", 0)', 1, "fire", "C06-R1"),
+    ("C06", "c06-ge0", EE, 'entity.set_circuit_condition(signal_dict, ">", 0)', 'entity.set_circuit_condition(signal_dict, ">=", 0)', 0, "fire", "C06-R1"),
     ("C06", "c06-inline-any-output", EP, "        if not (isinstance(right, int) and output_value == 1):\n            return None\n", "        if not isinstance(right, int):\n            return None\n", 1, "fire", "C06-R2"),
     ("C06", "c06-wildcard-swap", SL, 'special_signal = "signal-everything" if func_name == "all" else "signal-anything"', 'special_signal = "signal-anything" if func_name == "all" else "signal-everything"', 1, "fire", "C06-R3"),
     # ---- C07 ----
